@@ -47,7 +47,7 @@ def gen_eval(tier, R):
     for o in OPS:
         for a in OPERANDS:
             case(f"(un {o} {a})")
-    ops2 = OPERANDS if tier == 'thorough' else (OPERANDS[::2] + OPERANDS[-7:])
+    ops2 = OPERANDS   # every ordered pair of operand descriptors under every operator, in both tiers (a stride sample once dropped `false` and every negative number)
     for o in OPS:
         for a in ops2:
             for c in ops2:
